@@ -1,0 +1,123 @@
+//go:build verif
+
+package ctrlflow
+
+import (
+	"fmt"
+	"go/ast"
+	mathrand "math/rand"
+	"strings"
+
+	"golang.org/x/tools/go/ssa"
+)
+
+// Verification hooks (build tag "verif"): run the real key generation, opaque-predicate and hardening code on a
+// seeded random source and report what was drawn and what was emitted, in a flat text form.
+
+// verifSource records every value drawn from the wrapped source.
+type verifSource struct {
+	src   mathrand.Source64
+	draws []int64
+}
+
+func (s *verifSource) Int63() int64 {
+	v := s.src.Int63()
+	s.draws = append(s.draws, v)
+	return v
+}
+func (s *verifSource) Uint64() uint64 { return s.src.Uint64() }
+func (s *verifSource) Seed(seed int64) { s.src.Seed(seed) }
+
+func verifRand(seed int64) (*mathrand.Rand, *verifSource) {
+	src := &verifSource{src: mathrand.NewSource(seed).(mathrand.Source64)}
+	// hide Uint64 so that every method goes through Int63 and is recorded
+	return mathrand.New(struct{ mathrand.Source }{src}), src
+}
+
+// VerifAlwaysFalse returns n results of randomAlwaysFalseCond as "v1 op v2".
+func VerifAlwaysFalse(seed int64, n int) []string {
+	rnd, _ := verifRand(seed)
+	var out []string
+	for range n {
+		v1, op, v2 := randomAlwaysFalseCond(rnd)
+		out = append(out, fmt.Sprintf("%s %s %s", v1.Value.ExactString(), op.String(), v2.Value.ExactString()))
+	}
+	return out
+}
+
+// VerifGenerateKeys returns the Int31 draws consumed and the keys produced.
+func VerifGenerateKeys(seed int64, count int, black []int) (draws []int, keys []int) {
+	rnd, src := verifRand(seed)
+	keys = generateKeys(count, black, rnd)
+	for _, d := range src.draws {
+		draws = append(draws, int(int32(d>>32)))
+	}
+	return draws, keys
+}
+
+func verifLit(e ast.Expr) string {
+	switch e := e.(type) {
+	case *ast.BasicLit:
+		return e.Value
+	case *ast.ParenExpr:
+		return verifLit(e.X)
+	}
+	panic(fmt.Sprintf("not a literal: %T", e))
+}
+
+func verifDispatcher(n int) ([]cfgInfo, map[ssa.Value]ast.Expr) {
+	var d []cfgInfo
+	for i := range n {
+		d = append(d, cfgInfo{StoreVar: makeSsaInt(i + 1), CompareVar: makeSsaInt(i + 1)})
+	}
+	return d, make(map[ssa.Value]ast.Expr)
+}
+
+// VerifXor runs xorHardening.Apply for n dispatcher entries and returns
+// "first=<firstKey> second=<b,b,...> entries=<k>:<compare>,..." read back from the emitted AST.
+func VerifXor(seed int64, n int) string {
+	rnd, _ := verifRand(seed)
+	d, remap := verifDispatcher(n)
+	decl, _ := xorHardening{}.Apply(d, remap, rnd)
+	call := decl.(*ast.GenDecl).Specs[0].(*ast.ValueSpec).Values[0].(*ast.CallExpr)
+	body := call.Fun.(*ast.FuncLit).Body.List
+	first := verifLit(body[0].(*ast.AssignStmt).Rhs[0])
+	var second []string
+	for _, e := range call.Args[0].(*ast.CompositeLit).Elts {
+		second = append(second, verifLit(e))
+	}
+	var entries []string
+	for _, info := range d {
+		store := remap[info.StoreVar].(*ast.ParenExpr).X.(*ast.BinaryExpr)
+		entries = append(entries, verifLit(store.Y)+":"+verifLit(remap[info.CompareVar]))
+	}
+	return fmt.Sprintf("first=%s second=%s entries=%s", first, strings.Join(second, ","), strings.Join(entries, ","))
+}
+
+// VerifDelegate runs delegateTableHardening.Apply and returns
+// "key=<b,...> delegates=<keyIdx>:<localKey>,... entries=<delegateIdx>:<encrypted>:<compare>,..."
+func VerifDelegate(seed int64, n int) string {
+	rnd, _ := verifRand(seed)
+	d, remap := verifDispatcher(n)
+	decl, _ := delegateTableHardening{}.Apply(d, remap, rnd)
+	call := decl.(*ast.GenDecl).Specs[0].(*ast.ValueSpec).Values[0].(*ast.CallExpr)
+	var key []string
+	for _, e := range call.Args[0].(*ast.CompositeLit).Elts {
+		key = append(key, verifLit(e))
+	}
+	ret := call.Fun.(*ast.ParenExpr).X.(*ast.FuncLit).Body.List[0].(*ast.ReturnStmt).Results[0].(*ast.CompositeLit)
+	var delegates []string
+	for _, e := range ret.Elts {
+		// return i ^ (int(key[<idx>]) ^ <local>)
+		inner := e.(*ast.FuncLit).Body.List[0].(*ast.ReturnStmt).Results[0].(*ast.BinaryExpr).Y.(*ast.BinaryExpr)
+		idx := inner.X.(*ast.CallExpr).Args[0].(*ast.IndexExpr).Index
+		delegates = append(delegates, verifLit(idx)+":"+verifLit(inner.Y))
+	}
+	var entries []string
+	for _, info := range d {
+		storeCall := remap[info.StoreVar].(*ast.CallExpr)
+		idx := storeCall.Fun.(*ast.IndexExpr).Index
+		entries = append(entries, verifLit(idx)+":"+verifLit(storeCall.Args[0])+":"+verifLit(remap[info.CompareVar]))
+	}
+	return fmt.Sprintf("key=%s delegates=%s entries=%s", strings.Join(key, ","), strings.Join(delegates, ","), strings.Join(entries, ","))
+}
